@@ -1,7 +1,11 @@
 (* Model of tower-resilience-bulkhead (src/service.rs, Bulkhead::call) at poll
    granularity, together with tokio's fair batch semaphore and time::timeout.
-   Executable; no proofs here.  Time unit: milliseconds. *)
-From TR Require Import Lib.Base.
+   Executable; no proofs here.  Time unit: nanoseconds (instants and max_wait).
+   Timer resolution: tokio's timer wheel works in whole milliseconds since the start of the
+   runtime; a sleep whose deadline is not on a millisecond tick fires at the NEXT tick
+   (Lib/TokioTime.v: ceil_ms), and a freshly registered sleep is elapsed at once only if that
+   tick has been reached.  On whole-millisecond instants and waits ceil_ms is the identity. *)
+From TR Require Import Lib.Base Lib.TokioTime.
 
 Inductive outcome := OOk | OErr | OPanic.
 
@@ -92,13 +96,17 @@ Definition poll (c : cfg) (s0 : st) (i : nat) : st * obs :=
     | O =>
       match max_wait c with
       | Some w =>
-        if w <=? 0 then
+        (* time::timeout(w, acquire): the acquire is queued, the Sleep's deadline is now + w,
+           rounded up to the timer tick; if that tick has been reached the Sleep is elapsed in
+           this very poll (w = 0 on a tick: reject_when_full) and the acquire is dropped again *)
+        let d := ceil_ms (now s + w) in
+        if d <=? now s then
           (mkSt (now s) (free s) (queue s) (granted s) (running s) (upd (cs s) i Done)
                 (gate s) (woken s) (entered s) (arrival s),
            {| r := 3; started := false; seen := 0 |})
         else
           (mkSt (now s) (free s) (queue s ++ [i]) (granted s) (running s)
-                (upd (cs s) i (Waiting (Some (now s + w)))) (gate s) (woken s) (entered s) (arrival s),
+                (upd (cs s) i (Waiting (Some d))) (gate s) (woken s) (entered s) (arrival s),
            {| r := 0; started := false; seen := 0 |})
       | None =>
           (mkSt (now s) (free s) (queue s ++ [i]) (granted s) (running s)
@@ -174,7 +182,9 @@ Definition step (c : cfg) (s : st) (e : ev) : st * obs :=
 Definition step_st (c : cfg) (s : st) (e : ev) : st := fst (step c s e).
 
 (* ---- script interface ----
-   script = [cap; max_wait (-1 = none, else ms); nf; (op a b)* ]
+   script = [cap; max_wait (-1 = none, else a duration); nf; (op a b)* ]
+     durations (max_wait, Advance amounts) use Lib/TokioTime.ns_of: a value below 2^40 is in
+       milliseconds, 2^40 + k is k nanoseconds (the sub-millisecond class)
      nf = n + 1000 * flags: n = number of scripted callers (ids 0..n-1); the flags select the
        builder route, the service handle each caller goes through and listener registration in
        the driver (harness/src/bin/c01.rs) -- none of them exists in this model: every route
@@ -182,7 +192,8 @@ Definition step_st (c : cfg) (s : st) (e : ev) : st := fst (step c s e).
      op 1 = Poll a, 2 = Drop a, 3 = Advance a ms, 4 = Complete a b (b: 0 ok 1 err, else panic;
        3 = the inner service panics synchronously inside its call(), which is the same
        observable behaviour as a response future that panics in its first poll),
-     5 = call() without a poll (nothing happens in call() for this layer: no-op).
+     5 = call() without a poll (nothing happens in call() for this layer: no-op),
+     6 = call() for every caller still without a future, then every service handle is dropped (no-op).
      Events of ops 1, 2, 4, 5 whose caller id is outside 0..n-1 are ignored (no trace row).
    After the scripted events every caller 0..n-1 is dropped and cap+1 fresh callers
    n..n+cap are polled once each (capacity probe, C07).
@@ -193,15 +204,19 @@ Definition outcome_of (z : Z) : outcome :=
 
 Definition ev_of (n : nat) (t : Z * Z * Z) : option ev :=
   let '(op, a, b) := t in
-  let i := Z.to_nat a in
-  if op =? 3 then Some (Advance a) else
+  if op =? 3 then Some (Advance (ns_of a)) else
+  if op =? 6 then Some (Advance 0) else
   if negb ((0 <=? a) && (a <? Z.of_nat n)) then None else
-  if op =? 1 then Some (Poll i) else
-  if op =? 2 then Some (Drop i) else
-  if op =? 4 then Some (Complete i (outcome_of b)) else
+  (* only now is [a] known to be a small caller id (extraction is strict: no Z.to_nat before) *)
+  if op =? 1 then Some (Poll (Z.to_nat a)) else
+  if op =? 2 then Some (Drop (Z.to_nat a)) else
+  if op =? 4 then Some (Complete (Z.to_nat a) (outcome_of b)) else
   if op =? 5 then Some (Advance 0) else None.
   (* op 5 = the call future of caller a is created (call()) without being polled: nothing
-     happens in call() for this layer, so the model treats it as a no-op *)
+     happens in call() for this layer, so the model treats it as a no-op.
+     op 6 = the driver creates the call future of every caller that has none yet (scripted and
+     probe callers) and then drops EVERY service handle: the call futures own their
+     Arc<Semaphore> and keep working, so this is a no-op as well *)
 
 Fixpoint evs_of (n : nat) (l : list (Z * Z * Z)) : list ev :=
   match l with
@@ -231,7 +246,7 @@ Fixpoint run_evs (c : cfg) (total : nat) (s : st) (evs : list ev) : list Z :=
 
 Definition cfg_of (sc : list Z) : cfg :=
   {| cap := Z.to_nat (zn sc 0);
-     max_wait := if zn sc 1 <? 0 then None else Some (zn sc 1) |}.
+     max_wait := if zn sc 1 <? 0 then None else Some (ns_of (zn sc 1)) |}.
 
 Definition callers_of (sc : list Z) : nat := Z.to_nat (zn sc 2 mod 1000).
 
